@@ -255,11 +255,37 @@ def check_base(ctx, tag, src, m, cfg, rng):
             forms.append(('kekule', k))
         except Exception:
             pass
-    for i in range(cfg['writes']):
+    # hydrogens of stereocentres written as atoms (the reader has its own rule for a centre that is written first and has a hydrogen)
+    if any(a.stereo is not None and a.implicit_hydrogens for _, a in m.atoms()) and rng.random() < .35 and len(m) < 60:
+        e = m.copy()
+        G._fix_slots(e)
+        try:
+            e.kekule()
+            e.explicify_hydrogens()
+            forms.append(('explicit-h', e))
+            ctx.count('base.explicit-h-form')
+        except Exception:
+            pass
+    for i in range(cfg['writes'] + (4 if len(forms) > 2 or forms[-1][0] == 'explicit-h' else 0)):
         form, mol = forms[i % len(forms)]
         spec = SPECS[(i + rng.randrange(len(SPECS))) % len(SPECS)] if i else ''
+        if form == 'explicit-h' and 'r' not in spec:
+            spec = rng.choice(('r', 'ra', 'rA'))        # random orders put the centre first in its component now and then
         ctx.evaluations += 1
         roundtrip(ctx, mol, spec, src, form)
+    # the canonical string does not depend on whether the written order was asked for before the string itself
+    c = m.copy()
+    G._fix_slots(c)
+    try:
+        list(c.smiles_atoms_order)
+        t = str(c)
+    except Exception as e:
+        ctx.violation('writer-raised/%s' % type(e).__name__, '%s: smiles_atoms_order then str: %r' % (src, e), {'src': src, 'spec': '', 'form': 'aromatic'})
+        return
+    ctx.count('read-order.compared')
+    if t != key:
+        ctx.violation('canonical-string-depends-on-read-order', '%s: str() gives %s, after smiles_atoms_order was read first %s' % (src, key, t),
+                      {'src': src, 'spec': '', 'form': 'aromatic'})
 
 
 def worker(ctx):
